@@ -302,3 +302,110 @@ def source_matches_bin(ck, F, T):
             diff = sorted(k for k in set(a.get(sec, {})) | set(b.get(sec, {})) if a.get(sec, {}).get(k) != b.get(sec, {}).get(k))
             ck.ob(R, "languages.json|%s|%s|equals-bin" % (lang, sec), not diff,
                   "languages.json and the embedded language.bin disagree for %s.%s on %s" % (lang, sec, diff[:5]), p, 1)
+
+
+# ------------------------------------------------------------------------------------------------
+def table_cycle(ck, F):
+    """TABLE-cycle (C34): next_state is one 4-cycle over {relative,absolute}^2, and cycle_endpoint assembles its
+    result only from '$', the upper-cased column slice and the row slice."""
+    from pathx import Interp, UNKNOWN
+    from mir import place_proj
+    R = "TABLE-cycle"
+    ns = ck.need(F.one, "lexer::util::next_state")
+    I = Interp(ns)
+    table = {}
+    for a in (False, True):
+        for r in (False, True):
+            ps = I.run({"absolute_column": a, "absolute_row": r})
+            rets = {tuple(p.ret[1]) if isinstance(p.ret, tuple) and p.ret[0] == "tuple" else None for p in ps}
+            ok = len(rets) == 1 and None not in rets
+            ck.ob(R, "next_state|(%s,%s)|deterministic" % (a, r), ok, "next_state(%s,%s) yields %s" % (a, r, rets), ns.file, ns.line,
+                  sample={"in": [a, r], "out": [list(x) for x in rets if x]})
+            if ok:
+                table[(a, r)] = rets.pop()
+    if len(table) == 4:
+        # single cycle of length 4
+        cur = (False, False)
+        seen = []
+        for _ in range(4):
+            seen.append(cur)
+            cur = table[cur]
+        ck.ob(R, "next_state|single-4-cycle", cur == (False, False) and len(set(seen)) == 4,
+              "next_state is not a 4-cycle: orbit of (false,false) is %s -> %s" % (seen, cur), ns.file, ns.line,
+              sample={"orbit": [list(x) for x in seen]})
+        ck.ob(R, "next_state|bijection", len(set(table.values())) == 4, "next_state is not a bijection: %s" % table, ns.file, ns.line)
+    ce = ck.need(F.one, "lexer::util::cycle_endpoint")
+    nsc = ce.calls_to("lexer::util::next_state")
+    ck.ob(R, "cycle_endpoint|uses-next_state", len(nsc) == 1, "cycle_endpoint calls next_state %d times" % len(nsc), ce.file, ce.line)
+    # what is appended to `result`
+    res = [l for l in ce.local_by_name("result")]
+    pushes = []
+    for bi, t in ce.calls():
+        q = ce.callee_q(t) or ""
+        if not t["args"]:
+            continue
+        rt = ce.ref_target(t["args"][0])
+        if rt is None or place_proj(rt) or rt["l"] not in res:
+            continue
+        last = q.rsplit("::", 1)[-1]
+        if last == "push":
+            from tabx import describe_operand
+            pushes.append(("push", describe_operand(ce, t["args"][1]), bi))
+        elif last == "extend":
+            # extend(result, map(iter(column), closure))
+            r = ce.trace(t["args"][1])
+            src = None
+            clos = None
+            if r["kind"] == "call" and (ce.callee_q(r["t"]) or "").endswith("Iterator::map"):
+                it = ce.trace(r["t"]["args"][0])
+                if it["kind"] == "call" and (ce.callee_q(it["t"]) or "").endswith("slice::iter"):
+                    rt2 = ce.ref_target(it["t"]["args"][0]) or {}
+                    src = ce.local_name(rt2.get("l", -1))
+                    if src is None:
+                        tr = ce.trace(it["t"]["args"][0])
+                        if tr["kind"] == "place":
+                            src = ce.local_name(ce.resolve_place(tr["place"], through_named=False)["l"])
+                cl = ce.trace(r["t"]["args"][1])
+                if cl["kind"] == "rv" and cl["rv"]["k"] == "agg" and cl["rv"].get("agg") == "closure":
+                    cb = F.body(cl["rv"]["def"])
+                    if cb is not None:
+                        clos = sorted({(cb.callee_q(tt) or "").rsplit("::", 1)[-1] for _, tt in cb.calls()})
+            pushes.append(("extend-map", (src, tuple(clos or [])), bi))
+        elif last == "extend_from_slice":
+            tr = ce.trace(t["args"][1])
+            src = None
+            if tr["kind"] == "place":
+                src = ce.local_name(ce.resolve_place(tr["place"])["l"])
+            elif tr["kind"] == "call":
+                src = "call"
+            rt2 = ce.ref_target(t["args"][1])
+            if rt2 is not None:
+                src = ce.local_name(rt2["l"]) or src
+            if src is None:
+                o = t["args"][1]
+                from mir import op_place
+                p = op_place(o)
+                src = ce.local_name(ce.resolve_place(p, through_named=False)["l"]) if p else None
+            pushes.append(("extend_from_slice", src, bi))
+        elif last in ("with_capacity", "new"):
+            pass
+        else:
+            pushes.append((last, None, bi))
+    kinds = [(k, d) for k, d, _ in pushes]
+    for k, d, bi in pushes:
+        f, l = ce.loc(bi)
+        if k == "push":
+            ok = d == ("const", "'$'")
+            ck.ob(R, "cycle_endpoint|push|only-dollar", ok, "cycle_endpoint pushes %s into the result (only '$' markers may be added)" % (d,), f, l,
+                  sample={"append": "push", "value": str(d)})
+        elif k == "extend-map":
+            ok = d[0] == "column" and d[1] == ("to_ascii_uppercase",)
+            ck.ob(R, "cycle_endpoint|column-letters", ok, "column letters are rebuilt from %s through %s (only letter case may change)" % d, f, l,
+                  sample={"append": "extend(map)", "source": d[0], "map": list(d[1])})
+        elif k == "extend_from_slice":
+            ok = d == "row"
+            ck.ob(R, "cycle_endpoint|row-digits", ok, "row digits are appended from `%s`, not from the row slice" % d, f, l,
+                  sample={"append": "extend_from_slice", "source": d})
+        else:
+            ck.ob(R, "cycle_endpoint|other-append %s" % k, False, "unexpected mutation `%s` of the result" % k, f, l)
+    ck.ob(R, "cycle_endpoint|append-sites", len(pushes) == 4, "expected 2 '$' pushes, the column and the row, found %s" % kinds, ce.file, ce.line)
